@@ -1,17 +1,18 @@
-\* intended machine (Dev = {}): every invariant holds, no deadlock.
-\* 2 threads x 2 calls, archive 1 = "A" (read-only) and 2 = "B" (writable) already open, whole API
 CONSTANTS
   Threads = {t1, t2}
   ArchFiles = {"A", "B"}
-  Names = {"x", "y"}
+  Names = {"f0", "f1"}
   Dev = {}
   Budget = 2
-  CallFns = {"OpenArchive", "CloseArchive", "OpenFileEx", "CloseFile", "ReadFile", "SetFilePointer", "GetFileSize", "GetFileInfo", "HasFile", "AddFile", "RemoveFile", "FindFirst", "FindNext", "FindClose", "VerifyArchive", "VerifyFile", "FlushArchive"}
-  MaxOpen = 4
+  CallFns = {"OpenArchive", "CloseArchive", "OpenFileEx", "ReadFile", "AddFile", "VerifyArchive", "FindFirst", "FindNext"}
+  MaxOpen = 5
   HashCap = 2
+  Rich = FALSE
   PreOpen = 2
+CONSTANT NextId <- MCNextId
 INIT MCInit
 NEXT MCNext
 SYMMETRY Symm
-INVARIANTS TypeOK CloseInvalidatesOwn NoOrphans CursorInRange IdsUnique NoSelfDeadlock NoHang NoWaitCycle LocksOwned ExistenceAgrees ReadCopiesMin InvalidReported
+VIEW LockView
+INVARIANTS TypeOK CloseInvalidatesOwn NoOrphans CursorInRange IdsUnique NoSelfDeadlock NoHang NoWaitCycle LocksOwned
 CHECK_DEADLOCK TRUE
